@@ -5,7 +5,7 @@ From Coq Require Import ZArith Reals Floats Bool.
 From Flocq Require Import Core BinarySingleNaN PrimFloat.
 From Coquelicot Require Import Complex.
 From PB Require Import Proofs.TwoSumExact Model.Phase2 Proofs.Floor Proofs.DayFrac Proofs.DayFrac3 Proofs.PhaseAdd Proofs.PhaseMore
-  Proofs.DayFracTail Proofs.TwoProduct Proofs.PhaseMul Proofs.PhaseAbs Proofs.PhaseDiv Model.PhaseOrd Model.PhaseDivmod Proofs.PhaseArgmin Proofs.PhaseDivmodProofs Proofs.PhaseDivmodFloor.
+  Proofs.DayFracTail Proofs.TwoProduct Proofs.PhaseMul Proofs.PhaseAbs Proofs.PhaseDiv Model.PhaseOrd Model.PhaseDivmod Proofs.PhaseArgmin Proofs.PhaseDivmodProofs Proofs.PhaseDivmodFloor Proofs.FmodSpec Proofs.FloorDivSpec Proofs.PhaseDivmodFinal.
 Open Scope R_scope.
 Notation fexp := (FLT_exp (-1074) 53).
 Notation rnd := (round radix2 fexp ZnearestE).
@@ -151,22 +151,31 @@ Theorem C07_divmod_identity : forall (p : ph) (d q : PrimFloat.float) (rem : ph)
   Rabs (R_of q * R_of d + V rem - V p) <= bpow radix2 (-51) /\ Rabs (R_of (p_frac rem)) <= / 2 + bpow radix2 (-50).
 Proof. exact divmod_identity. Qed.
 
-(* the FLOOR half, under an explicit specification of numpy's float floor_divide (an external routine; Model/PhaseDivmod.np_divmod is
-   compared with numpy bit for bit and numpy with the exact rational floor on every run -- fdiv_spec is a hypothesis, not an axiom):
-     fdiv_spec f := forall a b, fin a -> fin b -> 2^-10 <= b <= 2^10 -> |a| <= 2^41 -> fin (f a b) /\ R_of (f a b) = IZR (Zfloor (a / b)).
-   Then for every real phase with integer count up to 2^40 and every divisor d in [2^-10, 2^10] the branch returns an INTEGER
+(* the FLOOR half.  numpy's float floor_divide is an external routine; its statement-by-statement model np_divmod (exact fmod computed
+   on the decoded operands, quotient, Python-sign adjustment, snap to the nearest integer) is compared with numpy bit for bit on every
+   run, and about that model:  fmod is exact (a - t b for an integer t, |.| < |b|, sign of a), and floor_divide returns the EXACT floor
+   of the quotient of two doubles for divisors in [2^-10, 2^10] and |a| <= 2^40. *)
+Theorem C07_fmod_exact : forall a b : PrimFloat.float, fin a -> fin b -> R_of b <> 0 ->
+  exists t : Z, fin (fmod_f a b) /\ R_of (fmod_f a b) = R_of a - IZR t * R_of b /\
+    Rabs (R_of (fmod_f a b)) < Rabs (R_of b) /\
+    (0 <= R_of a -> 0 <= R_of (fmod_f a b)) /\ (R_of a <= 0 -> R_of (fmod_f a b) <= 0).
+Proof. exact fmod_spec. Qed.
+Theorem C07_floor_divide_exact : forall a b : PrimFloat.float, fin a -> fin b ->
+  bpow radix2 (-10) <= R_of b <= bpow radix2 10 -> Rabs (R_of a) <= bpow radix2 40 ->
+  fin (np_floor_divide a b) /\ R_of (np_floor_divide a b) = IZR (Zfloor (R_of a / R_of b)).
+Proof. exact np_floor_divide_floor. Qed.
+(* hence, for every real phase with an integer count up to 2^39 and every divisor d in [2^-10, 2^10], the branch returns an INTEGER
    quotient q and a normalised remainder r with a = q d + r within 2^-51 and -delta <= r < d + delta, delta = 2^-49 + 2^-52 d:
-   the two passes do compute the floor (the source marks the method "TODO: check this method is really correct"). *)
-Theorem C07_divmod_floor : fdiv_spec np_floor_divide ->
-  forall (p : ph) (d : PrimFloat.float) (k : Z),
-  p_imag p = false -> fin (p_int p) -> fin (p_frac p) -> R_of (p_int p) = IZR k -> (Z.abs k <= 2 ^ 40)%Z ->
+   the two-pass method the source marks "TODO: check this method is really correct" does compute the floor. *)
+Theorem C07_divmod_floor : forall (p : ph) (d : PrimFloat.float) (k : Z),
+  p_imag p = false -> fin (p_int p) -> fin (p_frac p) -> R_of (p_int p) = IZR k -> (Z.abs k <= 2 ^ 39)%Z ->
   Rabs (R_of (p_frac p)) <= / 2 + bpow radix2 (-50) ->
   fin d -> bpow radix2 (-10) <= R_of d <= bpow radix2 10 ->
   forall (q : PrimFloat.float) (rem : ph), op_divmod p d = Some (q, rem) ->
   fin q /\ (exists Q : Z, R_of q = IZR Q) /\ ok_ph rem /\
   Rabs (R_of q * R_of d + V rem - V p) <= bpow radix2 (-51) /\
   - (bpow radix2 (-49) + bpow radix2 (-52) * R_of d) <= V rem < R_of d + (bpow radix2 (-49) + bpow radix2 (-52) * R_of d).
-Proof. exact divmod_floor. Qed.
+Proof. exact divmod_floor_model. Qed.
 
 (* imaginary phases, factors and divisors: the flag / sign rules of from_angles are complex multiplication and division *)
 Theorem C07_imag_factor : forall (a b : bool) (x f : R),
@@ -188,7 +197,7 @@ Theorem C07_from_angles_flags : forall v1 v2 fv (im imf : bool),
 Proof. exact from_angles_factor_flags. Qed.
 
 (* PARTIAL (not proved here, carried by the bit-exact correspondence + exact-rational monitor on every run):
-   |frac| <= 1/2 exactly at ties; numpy's floor_divide being the exact floor (hypothesis of C07_divmod_floor, monitored);
+   |frac| <= 1/2 exactly at ties; numpy's C routine = its model np_divmod (bit-exact comparison on every run);
    the ranges outside the hypotheses above (divisors beyond 2^+-100, quotients beyond 2^47, subnormal phases). *)
 
 Print Assumptions C07_two_sum_exact.
@@ -201,6 +210,8 @@ Print Assumptions C07_two_product_exact.
 Print Assumptions C07_mul.
 Print Assumptions C07_divmod_identity.
 Print Assumptions C07_divmod_floor.
+Print Assumptions C07_fmod_exact.
+Print Assumptions C07_floor_divide_exact.
 Print Assumptions C07_div.
 Print Assumptions C07_abs.
 Print Assumptions C07_div_branch.
